@@ -8,8 +8,11 @@ compared by `fields_match`, `clear_preserved_match`, …), `soxr_create` / `soxr
 `soxr_set_num_channels` / `soxr_clear` / `soxr_delete0` / `initialise` / `fatal_error` as functions, every other API call as
 the footprint `Dyn`; the process-wide FFT cache and VR coefficient tables as `Globals`.
 
-* `clear_eq_fresh`: for EVERY state `p` whatsoever (hence after every history: partial streams, flushes, sticky errors,
-  earlier clears): the struct after `soxr_clear(p)` equals, FIELD BY FIELD, the struct `soxr_create` builds for `p`'s
+* `clear_torn_down_keeps_error` (commit b5a678f, F40): an object `fatal_error` has torn down (error set, control block
+  zeroed) is returned unchanged with its error; `fatal_is_torn_down`, `torn_down_absorbing`: that state is what a failed
+  deferred initialisation leaves and no operation of the model leaves it.
+* `clear_eq_fresh`: for EVERY state `p` that is NOT torn down (hence after every history: partial streams, flushes, sticky
+  errors, earlier clears): the struct after `soxr_clear(p)` equals, FIELD BY FIELD, the struct `soxr_create` builds for `p`'s
   configuration (seed 0) with `p`'s input-function registration copied in; recipes without RESET_ON_CLEAR: the fresh
   object is the one created with rates 0/0 (ratio not yet known), exactly as the code leaves it.
   `clear_fails_like_create`: if engine creation fails, `soxr_clear` reports what `soxr_create` would.
@@ -55,10 +58,41 @@ theorem copyFn_eq_setInputFn (q p : Soxr σ) (f s m : Nat) :
 /-- MAIN: whatever state the object is in, `soxr_clear` leaves the struct a successful `soxr_create` of the same
     configuration (seed 0) would build, field by field, plus the registered input function, and returns 0 — no excluding
     hypothesis (since the F18 repair, commit 76fe472, also for objects whose channel count is not set yet). -/
-theorem clear_eq_fresh (W : Eng σ) (p q : Soxr σ) (h : (create W (clearConfig p) 0).1 = some q) :
+theorem clear_of_not_torn (W : Eng σ) (p : Soxr σ) (ht : ¬ TornDown p) : clear W p = clearLive W p := by
+  unfold clear; rw [if_neg ht]
+
+/-- an object torn down by a fatal error is returned as it is, with its error (commit b5a678f, F40): `soxr_clear` does not
+    revive it (there is no control block left to restart from) -/
+theorem clear_torn_down_keeps_error (W : Eng σ) (p : Soxr σ) (ht : TornDown p) :
+    clear W p = (p, p.error) ∧ (clear W p).2 ≠ 0 := by
+  unfold clear; rw [if_pos ht]; exact ⟨rfl, ht.1⟩
+
+/-- what `fatal_error` leaves is torn down, and stays so under every operation of the model (`soxr_set_input_fn`,
+    `soxr_set_io_ratio`, `soxr_set_num_channels`, `soxr_clear`): the handle can only be deleted -/
+theorem fatal_is_torn_down (p : Soxr σ) (e : Nat) : TornDown (fatal p (e + 1)) := by
+  simp [TornDown, fatal, delete0, zero]
+
+theorem torn_down_absorbing (W : Eng σ) (p : Soxr σ) (o : HOp) (ht : TornDown p) : TornDown (applyOp W p o) := by
+  have he : p.error ≠ 0 := ht.1
+  cases o with
+  | setInputFn f s m => exact ht
+  | setIoRatio r l => simp only [applyOp, setIoRatio, he, ne_eq, not_false_eq_true, if_true]; exact ht
+  | setNumChannels n =>
+    simp only [applyOp, setNumChannels]
+    split
+    · exact ht
+    · split
+      · exact ht
+      · split
+        · exact ht
+        · simp only [setIoRatio, he, ne_eq, not_false_eq_true, if_true]; exact ht
+  | clear => simp only [applyOp]; rw [(clear_torn_down_keeps_error W p ht).1]; exact ht
+
+theorem clear_eq_fresh (W : Eng σ) (p q : Soxr σ) (ht : ¬ TornDown p) (h : (create W (clearConfig p) 0).1 = some q) :
     clear W p = (copyFn q p, 0) := by
+  rw [clear_of_not_torn W p ht]
   unfold create at h
-  unfold clear clearBase clearConfig configOf copyFn at *
+  unfold clearLive clearBase clearConfig configOf copyFn at *
   by_cases hr : hasReset p.q_spec = true
   · simp only [hr, if_true] at h ⊢
     by_cases hc : p.num_channels = 0
@@ -85,20 +119,23 @@ theorem clear_eq_fresh (W : Eng σ) (p q : Soxr σ) (h : (create W (clearConfig 
     FORGOT its ratio in `soxr_clear`: `soxr_set_io_ratio` refuses ("must set # channels before O/I ratio") before storing it.
     The current `clear` does not (`clear_eq_fresh` has no excluding hypothesis). -/
 theorem clear_forgets_ratio_without_channels :
-    ∃ (p q : Soxr Unit), (create dEng (clearConfig p) 0).1 = some q ∧ (clearOld dEng p).1 ≠ copyFn q p ∧
-      (clearOld dEng p).1.io_ratio = 0 ∧ q.io_ratio = 7 ∧ (clearOld dEng p).2 = errNoChannels ∧
+    ∃ (p q : Soxr Unit), (create dEng (clearConfig p) 0).1 = some q ∧ (Historical.clearOld dEng p).1 ≠ copyFn q p ∧
+      (Historical.clearOld dEng p).1.io_ratio = 0 ∧ q.io_ratio = 7 ∧ (Historical.clearOld dEng p).2 = errNoChannels ∧
       clear dEng p = (copyFn q p, 0) := by
-  refine ⟨{ (zero : Soxr Unit) with io_ratio := 7, q_spec := ⟨resetBit, 1⟩, control_block := 4 }, _, rfl, ?_, rfl, rfl, rfl, rfl⟩
+  refine ⟨{ (zero : Soxr Unit) with io_ratio := 7, q_spec := ⟨resetBit, 1⟩, control_block := 4 }, _, rfl, ?_, rfl, rfl, rfl,
+    by rw [clear_of_not_torn _ _ (by decide)]; rfl⟩
   intro h
   have := congrArg Soxr.io_ratio h
   revert this
   decide
 
 /-- … and when engine creation fails, `soxr_clear` returns the error `soxr_create` would return -/
-theorem clear_fails_like_create (W : Eng σ) (p : Soxr σ) (e : Nat) (h : create W (clearConfig p) 0 = (none, e)) :
+theorem clear_fails_like_create (W : Eng σ) (p : Soxr σ) (e : Nat) (ht : ¬ TornDown p)
+    (h : create W (clearConfig p) 0 = (none, e)) :
     (clear W p).2 = e ∧ (clear W p).1 = fatal p e := by
+  rw [clear_of_not_torn W p ht]
   unfold create at h
-  unfold clear clearBase clearConfig configOf at *
+  unfold clearLive clearBase clearConfig configOf at *
   by_cases hr : hasReset p.q_spec = true
   · simp only [hr, if_true] at h ⊢
     by_cases hc : p.num_channels = 0
@@ -116,10 +153,11 @@ theorem clear_fails_like_create (W : Eng σ) (p : Soxr σ) (e : Nat) (h : create
     simp [hr'] at h
 
 /-- error reset, clips 0, flushing 0, seed 0 — for every prior state -/
-theorem clear_resets (W : Eng σ) (p : Soxr σ) :
+theorem clear_resets (W : Eng σ) (p : Soxr σ) (ht : ¬ TornDown p) :
     (clear W p).1.clips = 0 ∧ (clear W p).1.flushing = 0 ∧ (clear W p).1.seed = 0 ∧
     ((clear W p).2 = 0 → (clear W p).1.error = 0) := by
-  unfold clear clearBase
+  rw [clear_of_not_torn W p ht]
+  unfold clearLive clearBase
   by_cases hr : hasReset p.q_spec = true
   · simp only [hr, if_true]
     by_cases hc : p.num_channels = 0
@@ -135,9 +173,11 @@ theorem clear_resets (W : Eng σ) (p : Soxr σ) :
 
 /-- the engines after a successful clear of a RESET_ON_CLEAR object are newly created ones (so is their delay) -/
 theorem clear_engines_fresh (W : Eng σ) (p : Soxr σ) (e0 : σ) (hr : hasReset p.q_spec = true) (hc : p.num_channels ≠ 0)
-    (hz : p.io_ratio ≠ 0) (hcr : W.create p.control_block p.io_ratio p.q_spec p.runtime_spec p.io_spec.scale = .ok e0) :
+    (hz : p.io_ratio ≠ 0) (hcr : W.create p.control_block p.io_ratio p.q_spec p.runtime_spec p.io_spec.scale = .ok e0)
+    (ht : ¬ TornDown p) :
     (clear W p).1.resamplers = some (List.replicate p.num_channels e0) ∧ (clear W p).1.io_ratio = p.io_ratio := by
-  unfold clear clearBase
+  rw [clear_of_not_torn W p ht]
+  unfold clearLive clearBase
   simp [hr, setIoRatio, initialise, hc, hz, hcr]
 
 /-! ### along every history -/
@@ -155,6 +195,9 @@ theorem setIoRatio_fixed (W : Eng σ) (p : Soxr σ) (r l : Nat) :
 theorem clear_fixed (W : Eng σ) (p : Soxr σ) :
     Live (clear W p).1 → (fixedPart (clear W p).1 = fixedPart p ∧ Live p) := by
   unfold clear
+  split
+  · intro hl; exact ⟨rfl, hl⟩
+  unfold clearLive
   simp only
   split
   · split
@@ -217,7 +260,7 @@ theorem clear_after_history (W : Eng σ) (c : Config) (seed : Nat) {p0 p q : Sox
     (hc : (create W c seed).1 = some p0) (hr : Reach W p0 p) (hl : Live p)
     (hq : (create W (clearConfig p) 0).1 = some q) :
     clear W p = (copyFn q p, 0) ∧ fixedPart p = fixedPart p0 :=
-  ⟨clear_eq_fresh W p q hq, (history_keeps_config W hr hl).1⟩
+  ⟨clear_eq_fresh W p q (fun ht => hl ht.2) hq, (history_keeps_config W hr hl).1⟩
 
 /-! ### several objects -/
 
@@ -315,6 +358,12 @@ example :
       (create W (clearConfig { (setInputFn p0 7 9 0) with error := 3, clips := 17, flushing := 1 }) 0).1 = some q ∧
       clear W { (setInputFn p0 7 9 0) with error := 3, clips := 17, flushing := 1 } = (setInputFn q 7 9 0, 0) :=
   ⟨_, _, rfl, rfl, rfl⟩
+
+/-- a deferred object (ratio not yet known) whose spec the engine rejects: the late `soxr_set_io_ratio` tears it down;
+    `soxr_clear` then hands it back as it is, with the error -/
+example :
+    let p := (setIoRatio dEng (((create dEng ⟨2, 0, ⟨resetBit, 99⟩, ⟨0, 1, 0⟩, 1, 4, 1, 1⟩ 5).1).getD zero) 7 0).1
+    TornDown p ∧ clear dEng p = (p, 8) := ⟨by decide, rfl⟩
 
 example : Reach dEng (zero : Soxr Unit) (applyOp dEng (zero : Soxr Unit) (.setInputFn 1 2 3)) := .op _ (.refl _)
 
